@@ -35,7 +35,7 @@ def selftest(ctx, mod):
             json.dump(case, f, default=_json_default)
             p = f.name
         try:
-            env = dict(os.environ, PYTHONPATH=VERIF, PYTHONHASHSEED="0")
+            env = dict(os.environ, PYTHONHASHSEED="0")  # PYTHONPATH is inherited (harness dir [+ VERIF_REPO])
             out = subprocess.run(
                 [sys.executable, "-m", "vf.core.oneshot", ctx.pid, p, ctx.tier],
                 capture_output=True,
